@@ -11,6 +11,9 @@ package base64streamreader
 //@   opt safety-tag=C04
 //@   ensures[C04] 0 <= ret && ret <= len(p)
 //@   assert[C04]@return#1 n == 0
+// What is handed to the base64 decoder ends at the first padding: nothing but
+// '=' follows a '=' (the bytes of the next padded block stay in predec for the next round).
+//@   assert[C04]@call:DecodeString len(todec) > 0 && (forall k :: 0 <= k && k + 1 < len(todec) && todec[k] == 61 ==> todec[k+1] == 61)
 //@   modifies fields(r), all(byte), fresh
 
 // The wrapped reader is set once by New and never nil.
